@@ -120,7 +120,9 @@ func (sk *SpaceKeeper) spacePlotter() {
 		sk.stateLock.Unlock()
 
 		// Step 2: plot space (wait for finishing)
+		verifGate("step1-done", sid)
 		ws.Plot()
+		verifGate("plotted", sid)
 
 		// Step 3: change workSpace state
 		sk.stateLock.Lock()
@@ -172,7 +174,9 @@ func (sk *SpaceKeeper) spacePlotter() {
 			default:
 			}
 
+			verifGate("before-pop", "")
 			qws := sk.queue.PopItem()
+			verifGate("popped", qws.ws.id.String())
 			killMonitorCh := make(chan struct{}, 1)
 			wg.Add(1)
 			go monitor(qws.ws, killMonitorCh)
@@ -180,6 +184,7 @@ func (sk *SpaceKeeper) spacePlotter() {
 			close(killMonitorCh)
 		}
 
+		verifGate("idle", "")
 		select {
 		case <-sk.quit:
 			wg.Wait()
